@@ -122,7 +122,20 @@ def atomOpsWithin (ops : List Generic.Op) : GS → Bool
   | .atom a => ops.contains a.op
   | _ => false
 
-def strReplace (s pat rep : String) : String := s.replace pat rep
+/-- `str.replace(pat, rep)` for a non-empty `pat` (the only use: the literal "python_full_version"):
+all non-overlapping occurrences, left to right.  Structural on the character list (fuel = length + 1),
+so that it can be reasoned about; an empty `pat` (never passed) leaves the string unchanged. -/
+def replaceAux (pat rep : List Char) : Nat → List Char → List Char
+  | 0, s => s
+  | _ + 1, [] => []
+  | fuel + 1, c :: cs =>
+    if pat.isEmpty then c :: cs
+    else match stripPrefix? pat (c :: cs) with
+      | some rest => rep ++ replaceAux pat rep fuel rest
+      | none => c :: replaceAux pat rep fuel cs
+
+def strReplace (s pat rep : String) : String :=
+  String.ofList (replaceAux pat.toList rep.toList (s.length + 1) s.toList)
 
 def dropRight (s : String) (n : Nat) : String := String.ofList (s.toList.take (s.length - n))
 
